@@ -194,6 +194,7 @@ def enumerate_cases(tier, scope):
             for kinds in ((['method', 'meth_a'], ['method', 'meth_b']), (['savable', {'cls': 'C0', 'members': {'m0': ['val', 1], 'm1': ['val', 2]}}], ['method', 'meth_b']), (['val', 1], ['future', ['result', 5]])):
                 members = {'m0': kinds[0], 'm1': ['val', [1]], 'm2': kinds[1], 'm3': kinds[0], 'm4': kinds[1]}
                 yield {'shape': manual, 'instance': {'cls': 'C1', 'members': members}, 'loader': loader, 'load_with': load_with, 'ctx_extend': True}
+                yield {'shape': manual, 'instance': {'cls': 'C1', 'members': members}, 'loader': loader, 'load_with': load_with, 'redefine': True, 'strict': True}
     yield {'shape': shape, 'instance': {'cls': 'C2', 'members': {'m0': ['val', 1], 'm1': ['val', 2], 'm2': ['val', 3]}}, 'loader': 'default', 'load_with': 'none', 'tamper': 'pv.gen_classes:DoesNotExist'}
     yield {'shape': shape, 'instance': {'cls': 'C2', 'members': {'m0': ['val', 1], 'm1': ['val', 2], 'm2': ['val', 3]}}, 'loader': 'default', 'load_with': 'none', 'tamper': 'no-colon-here'}
     yield {'shape': shape, 'instance': {'cls': 'C2', 'members': {'m0': ['val', 1], 'm1': ['val', 2], 'm2': ['val', 3]}}, 'loader': 'persave', 'load_with': 'none', 'tamper': 'tag!pv.gen_classes:DoesNotExist'}
@@ -266,6 +267,8 @@ def _cases(draw, tier):
     if draw(st.integers(0, 9)) == 0:
         case['tamper'] = draw(st.sampled_from(['pv.gen_classes:DoesNotExist', 'no-colon-here', 'nomodule.xyz:Thing']))
     case['ctx_extend'] = draw(st.booleans())
+    case['redefine'] = draw(st.integers(0, 3)) == 0
+    case['strict'] = draw(st.booleans())
     if draw(st.integers(0, 2)) == 0:
         case['prelude'] = {'cls': draw(st.sampled_from([s['name'] for s in shape])), 'loader': draw(st.sampled_from(['default', 'other'])), 'share_ctx': draw(st.booleans())}
     return case
@@ -431,12 +434,31 @@ def execute(case):
                     v('not-copied-at-save', f'mutating the original after save() changed the saved state: {diff}')
                 if case.get('tamper'):
                     state['!!meta']['class_name'] = case['tamper']
+                if case.get('redefine'):
+                    # the classes are defined again under the same names (a module reloaded, a notebook cell run again):
+                    # names are resolved when a state is loaded, so the object must be an instance of the new definitions
+                    for spec in shape:
+                        cname = f"S_{jkey(shape)[:12]}_{spec['name']}"
+                        if hasattr(gen_classes, cname):
+                            delattr(gen_classes, cname)
+                    classes = make_classes(shape)
                 load_ctx = shared_ctx if shared_ctx is not None else persistence.LoadSaveContext(loop=loop)
                 if case['load_with'] == 'ctx' and case['loader'] != 'default':
                     load_ctx = persistence.LoadSaveContext(loop=loop, loader=custom)
                     if case.get('ctx_extend'):
                         load_ctx = persistence.LoadSaveContext(loader=custom).copyextend(loop=loop)
                 before_loads = loaders_h.TagLoader.owned_loads
+                if case.get('strict') and case['loader'] == 'default' and not case.get('tamper'):
+                    # a loader with an allow-list that does not contain the class of the object: refused, not resolved
+                    # through some other loader
+                    strict = loaders_h.StrictLoader(allowed=())
+                    try:
+                        leaked = persistence.Savable.load(copy.deepcopy(state), persistence.LoadSaveContext(loop=loop, loader=strict))
+                        v('strict-loader-bypassed', f'a loader that refuses every identifier was given in the load context, yet {type(leaked).__name__} was created')
+                    except ValueError:
+                        pass
+                    except BaseException as exc:  # noqa: BLE001
+                        v('strict-loader-error-type', f'{type(exc).__name__}: {str(exc)[:160]}')
                 try:
                     new = persistence.Savable.load(state, load_ctx)
                     err = None
@@ -476,6 +498,10 @@ def execute(case):
     classes_out = ['loader:' + case['loader'] + '/' + case['load_with']] + ['kind:' + k for k in sorted(flat)]
     if case.get('tamper'):
         classes_out.append('tampered')
+    if case.get('redefine'):
+        classes_out.append('classes-redefined-before-load')
+    if case.get('strict') and case['loader'] == 'default':
+        classes_out.append('strict-loader-probe')
     if case.get('ctx_extend') and case['loader'] in ('persave', 'persave+global'):
         classes_out.append('context-extended')
     if any(s2.get('manual') for s2 in shape):
